@@ -331,7 +331,9 @@ Print bad.
             return [], "", []
         is_rs = lambda c: bool(c["in"]["steps"]) and c["in"]["steps"][0]["k"] == "rescan"   # noqa: E731
         ridx = [i for i in idx if is_rs(cases[i])]
-        idx = [i for i in idx if not is_rs(cases[i])]
+        # a step with an injected node failure is judged by the oracle only: which blocks the poller hands
+        # over, and how often, then depends on its retry behaviour, which the model does not describe
+        idx = [i for i in idx if not is_rs(cases[i]) and not any(st.get("fail") for st in cases[i]["in"]["steps"])]
         rmism, rlog, rprob = [], "", []
         if ridx:
             rc, out, err = coq_eval(self.ID, self.render_rescan([cases[i] for i in ridx]), "cases_bd_rescan")
